@@ -337,10 +337,14 @@ def bounds_cases(draw):
     for ses in spec["sessions"]:
         stn = [x for x in spec["stations"] if x["id"] == ses["station"]][0]
         top = sc.top_level(stn)
-        # session lower bounds stay 0: with a positive lower bound the algorithm's fall-back to
-        # 0 A (below that bound) can itself break feasibility when phases cancel, and the property
-        # says nothing about that case (DESIGN.md section 8.5c)
+        # Sessions on finite-rate stations keep a lower bound of 0: with a positive one the
+        # algorithm's fall-back to 0 A (below that bound) can itself break feasibility when phases
+        # cancel, and the property says nothing about that case (DESIGN.md section 8.5c).  On a
+        # continuous station there is no fall-back: every session waits at its own minimum and is
+        # then raised, in priority order, to the largest feasible rate between minimum and bound.
         lb = 0.0
+        if stn["kind"] == "cont":
+            lb = draw(st.sampled_from([0.0, 0.0, 0.5, 2.0, 6.0, 8.0]))
         ub = draw(st.sampled_from([None, None, top, round(top * 0.6, 2), 9.0, 17.5]))
         if ub is not None and ub < lb:
             ub = None
@@ -633,7 +637,7 @@ def cases(draw, finite_max=True, large=False):
 def subchecks(tier):
     return [
         Given("greedy", cases(), prop_greedy, quick=1200, thorough=150000, floors={"constraint_binds": 0.172}, min_nontrivial=100),
-        Given("greedy_session_bounds", bounds_cases(), prop_greedy_bounds, quick=800, thorough=80000, floors={"level_list_without_zero": 0.15, "session_upper_bound": 0.2, "constraint_binds": 0.1, "no_listed_level_fits": 0.01}),
+        Given("greedy_session_bounds", bounds_cases(), prop_greedy_bounds, quick=800, thorough=80000, floors={"level_list_without_zero": 0.15, "session_upper_bound": 0.2, "constraint_binds": 0.1, "no_listed_level_fits": 0.01, "session_lower_bound": 0.1}),
         Given("round_robin", cases(large=True), prop_rr, quick=800, thorough=100000, floors={"stopped_by_infeasibility": 0.15, "sixteen_or_more_sessions_queued": 0.04}),
         Given("sorted_sim", sim_cases(), prop_sorted_sim, quick=250, thorough=20000, floors={"estimated_departure_already_past": 0.1}),
         Given("uncontrolled", cases(), prop_uncontrolled, quick=300, thorough=20000),
